@@ -5,7 +5,7 @@ import sys, os, subprocess, json, hashlib
 HERE = os.path.dirname(os.path.abspath(__file__))
 repo, outdir = sys.argv[1], sys.argv[2]
 os.makedirs(outdir, exist_ok=True)
-JOBS = [("translate_tables.py", "Tables.v"), ("translate_prims.py", "Prims.v")]
+JOBS = [("translate_tables.py", "Tables.v"), ("translate_prims.py", "Prims.v"), ("translate_extra.py", "Extra.v")]
 rc_all = 0
 for script, target in JOBS:
     p = subprocess.run([sys.executable, os.path.join(HERE, script), repo], stdout=subprocess.PIPE, stderr=subprocess.PIPE, text=True)
@@ -18,7 +18,7 @@ for script, target in JOBS:
 if rc_all: sys.exit(rc_all)
 hashes = {}
 for f in ["src/common.py", "src/isoform_assignment.py", "src/serialization.py", "src/alignment_processor.py", "src/long_read_counter.py", "isoquant.py",
-          "src/assignment_io.py", "src/intron_graph.py", "src/polya_verification.py"]:
+          "src/assignment_io.py", "src/intron_graph.py", "src/polya_verification.py", "src/polya_finder.py", "src/dataset_processor.py"]:
     try: hashes[f] = hashlib.sha1(open(os.path.join(repo, f), "rb").read()).hexdigest()[:12]
     except OSError: pass
 print(json.dumps(hashes))
